@@ -371,3 +371,156 @@ Theorem c14_source_every_index_once : forall bk sz s d1 d2 out,
               forall x, count_occ Nat.eq_dec (concat out) x = count_occ Nat.eq_dec s x.
 Proof. exact Tie.source_every_index_once. Qed.
 Print Assumptions c14_source_every_index_once.
+
+(* ---- second tie to the source text: the batching functions besides BucketBatchSampler.__iter__ -------------
+   PV.Gen.C14BWinSrc.extract_window is regenerated from /repo/src/pydrobert/torch/_datasets.py on every run.
+   Tensors are sequence-encoded (PV.MiniTorch.OpsC14B: a 1-D tensor = VTuple of cells, a stack = VList of its slices
+   along dimension 0); the torch calls are given meaning by SrcRunB.extB0; [junk] is the content of the
+   uninitialised buffer `feat.new(win_size, F)`: the theorems hold for every junk.
+   Interpreting the regenerated term on a (T, F) matrix with T >= 1 and a centre frame idx < T returns exactly
+   Model.extract_window - every window (left, right), both `reverse` settings.  (idx < T is the documented
+   precondition of extract_window and the hypothesis of the model's own window theorems.) *)
+From PV Require Gen.C14BWinSrc C14.SrcRunB C14.TieBWin.
+
+Theorem c14_source_extract_window_is_model : forall junk (feat : list row) idx left right reverse,
+  idx < length feat ->
+  exists st', SrcRunB.src_window junk feat idx left right reverse
+              = Interp.Ok (SrcRunB.enc_mat (extract_window [] feat idx left right reverse)) st'.
+Proof. exact TieBWin.window_tie. Qed.
+Print Assumptions c14_source_extract_window_is_model.
+
+(* composed with c14_extract_window_edge_replication / _reverse / _length: a statement purely about the interpreted
+   source - row k of the window it returns is frame clamp(idx - left + k, 0, T-1) of the utterance (read backwards
+   under reverse) and the window has 1 + left + right rows: no frame of the context is lost, none invented *)
+Theorem c14_source_extract_window_edge_replication : forall junk (feat : list row) idx left right reverse k,
+  idx < length feat -> k < 1 + left + right ->
+  exists st' w,
+    SrcRunB.src_window junk feat idx left right reverse = Interp.Ok (SrcRunB.enc_mat w) st' /\
+    length w = 1 + left + right /\
+    nth k w [] = nth (clamp_frame (length feat) idx left (if reverse then left + right - k else k)) feat [].
+Proof. exact TieBWin.source_window_edge_replication. Qed.
+Print Assumptions c14_source_extract_window_edge_replication.
+
+Example c14_source_window_nonvacuous :
+  SrcRunB.src_check_window [[10; 11]; [20; 21]; [30; 31]]%Z 0 2 1 false [[10; 11]; [10; 11]; [10; 11]; [20; 21]]%Z = true /\
+  SrcRunB.src_check_window [[10; 11]; [20; 21]; [30; 31]]%Z 2 1 2 true [[30; 31]; [30; 31]; [30; 31]; [20; 21]]%Z = true /\
+  SrcRunB.src_check_window [[10; 11]; [20; 21]; [30; 31]]%Z 1 1 1 false [[10; 11]; [20; 21]; [30; 30]]%Z = false.
+Proof. vm_compute. repeat split. Qed.
+
+(* PV.Gen.C14BSrc.cw_seq_to_batch is regenerated from context_window_seq_to_batch in
+   /repo/src/pydrobert/torch/_dataloaders.py (list(zip( *seq)), the [w.size(0) for w in windows] comprehension,
+   torch.cat, all(a is not None for a in alis), both has_uttids branches).  For every NON-EMPTY sequence of items
+   (the batch sampler never yields an empty batch; on an empty one the code raises, the model returns empty tensors)
+   the interpreted source returns the encoding of Model.cw_collate. *)
+From PV Require Gen.C14BSrc C14.TieBCw.
+
+Theorem c14_source_cw_collate_is_model : forall has_ids (sq : list cw_item), sq <> [] ->
+  exists st', SrcRunB.src_cw_collate has_ids sq = Interp.Ok (SrcRunB.enc_cw_batch has_ids (cw_collate sq)) st'.
+Proof. exact TieBCw.cw_tie. Qed.
+Print Assumptions c14_source_cw_collate_is_model.
+
+(* composed with c14_cw_collate_lossless: purely about the interpreted source - cutting the concatenated windows it
+   returns back by the window sizes it reports gives every utterance's windows back, in order, with their ids; the
+   number of windows is the sum of the utterances' frame counts: no frame is lost, none duplicated *)
+Theorem c14_source_cw_collate_lossless : forall (sq : list cw_item), sq <> [] ->
+  exists st' windows alis sizes ids,
+    SrcRunB.src_cw_collate true sq = Interp.Ok (SrcRunB.enc_cw_batch true (windows, alis, sizes, ids)) st' /\
+    split_by sizes windows = map (fun x => fst (fst x)) sq /\ ids = map snd sq /\
+    length windows = fold_right Nat.add 0 (map (fun x => length (fst (fst x))) sq).
+Proof. exact TieBCw.source_cw_collate_lossless. Qed.
+Print Assumptions c14_source_cw_collate_lossless.
+
+(* PV.Gen.C14BWinSrc.get_windowed_utterance is regenerated from ContextWindowDataSet.get_windowed_utterance
+   (_datasets.py): `super().get_utterance_tuple(idx)[:2]` (the parent data set's item: data held by the object, see
+   SrcRunB.cw_self), torch.empty (uninitialised: junk), the loop over the frames that CALLS the interpreted
+   extract_window (SrcRunB.extB), both suppress_uttids branches.  For every utterance with at least one frame (the
+   sequence encoding has no `.shape` for an empty matrix - the model has no feature width for one either) the
+   interpreted method returns the item Model.cw_loader collates. *)
+From PV Require C14.TieBWinU.
+
+Theorem c14_source_windowed_is_model : forall junk W (ds : list utt) left right reverse suppress i,
+  i < length ds -> u_feat (nth i ds dflt_utt) <> [] ->
+  let u := nth i ds dflt_utt in
+  exists st', SrcRunB.src_windowed junk W ds left right reverse suppress i
+              = Interp.Ok (SrcRunB.enc_cw_item suppress (windowed [] (u_feat u) left right reverse, u_ali u, u_id u)) st'.
+Proof. exact TieBWinU.windowed_tie. Qed.
+Print Assumptions c14_source_windowed_is_model.
+
+(* composed with the window theorems: purely about the interpreted method - ONE window per frame of the utterance,
+   the c-th being the edge-replicated window around frame c, with the utterance's own alignment and id *)
+Theorem c14_source_windowed_every_frame_once : forall junk W (ds : list utt) left right reverse suppress i,
+  i < length ds -> u_feat (nth i ds dflt_utt) <> [] ->
+  let u := nth i ds dflt_utt in
+  exists st' ws,
+    SrcRunB.src_windowed junk W ds left right reverse suppress i
+      = Interp.Ok (SrcRunB.enc_cw_item suppress (ws, u_ali u, u_id u)) st' /\
+    length ws = length (u_feat u) /\
+    forall c k, c < length (u_feat u) -> k < 1 + left + right ->
+      nth k (nth c ws []) []
+      = nth (clamp_frame (length (u_feat u)) c left (if reverse then left + right - k else k)) (u_feat u) [].
+Proof. exact TieBWinU.source_windowed_every_frame_once. Qed.
+Print Assumptions c14_source_windowed_every_frame_once.
+
+(* the two interpreted functions of the context-window loader composed: the items the interpreted data set returns for
+   the indices of a batch, collated by the interpreted collate function, are the batch Model.cw_loader delivers
+   (cw_loader = map of exactly these collations over the batch sampler's index batches: second conjunct).
+   _partial: torch's DataLoader (fetch dataset[i] for the sampled indices, call collate_fn on the list) and the one-line
+   ContextWindowDataLoader.collate_fn are hand-written glue, not translated. *)
+From PV Require C14.TieBPipe.
+
+Theorem c14_source_cw_batch_is_model_partial : forall junk W (ds : list utt) left right reverse suppress (b : list nat),
+  b <> [] -> Forall (fun i => i < length ds /\ u_feat (nth i ds dflt_utt) <> []) b ->
+  let items := map (TieBPipe.cw_item_of ds left right reverse) b in
+  Forall2 (fun i x => exists st', SrcRunB.src_windowed junk W ds left right reverse suppress i
+                                  = Interp.Ok (SrcRunB.enc_cw_item suppress x) st') b items /\
+  exists st', SrcRunB.src_cw_collate (negb suppress) items
+              = Interp.Ok (SrcRunB.enc_cw_batch (negb suppress) (cw_collate items)) st'.
+Proof. exact TieBPipe.cw_batch_pipeline. Qed.
+Print Assumptions c14_source_cw_batch_is_model_partial.
+
+Theorem c14_source_cw_loader_is_these_batches : forall (ds : list utt) bs drop left right reverse order,
+  cw_loader ds bs drop left right reverse order
+  = map (fun b => cw_collate (map (TieBPipe.cw_item_of ds left right reverse) b)) (batch_sampler bs drop order).
+Proof. exact TieBPipe.cw_loader_batches. Qed.
+Print Assumptions c14_source_cw_loader_is_these_batches.
+
+(* the interpreted data set item and collate function on a concrete data set; all five translated functions executed
+   (spect_seq_to_batch and _get_bucket_batch_sampler_params are executed only - not proved equal to the model) *)
+Example c14_source_batching_nonvacuous :
+  let u1 := mkUtt [[1]; [2]]%Z (Some [7; 8]%Z) (Some [[5]]%Z) 0 in
+  let u2 := mkUtt [[3]; [4]; [5]]%Z (Some [9; 10; 11]%Z) (Some [[6]; [7]]%Z) 1 in
+  let it := fun u => (windowed [] (u_feat u) 1 1 false, u_ali u, u_id u) in
+  SrcRunB.src_check_windowed 1 [u1; u2] 1 1 false false 1 (it u2) = true /\
+  SrcRunB.src_check_cw_collate true [it u1; it u2] (cw_collate [it u1; it u2]) = true /\
+  SrcRunB.src_check_cw_collate true [it u1; it u2] (cw_collate [it u2; it u1]) = false /\
+  SrcRunB.src_check_spect_collate false true true true 1 [u1; u2] (spect_collate false true 1 1 [u1; u2]) = true /\
+  SrcRunB.src_check_params false [3; 1; 4; 1; 5; 9; 2; 6] 3 2 true (bucket_params [3; 1; 4; 1; 5; 9; 2; 6] 3 2 true) = true.
+Proof. vm_compute. repeat split. Qed.
+
+(* PV.Gen.C14BSrc.spect_seq_to_batch is regenerated from spect_seq_to_batch (_dataloaders.py).  With
+   has_alis = has_uttids = True (what SpectDataLoader.collate_fn passes unless ids are suppressed), for every non-empty
+   sequence of items whose feature rows have one width F - and reference rows one width W when W <> 1: the items are
+   tensors of one trailing shape -, every sort / batch_first setting and every pattern of missing alignments /
+   references, the interpreted source - sorted(seq, key=lambda x: x[0].size(0), reverse=True), list(zip( *seq)), the
+   all(x is not None ..) tests, the size comprehensions, the three pad_sequence calls - returns the encoding of
+   Model.spect_collate.  (The other three has_alis / has_uttids combinations are executed on every run, not proved.) *)
+From PV Require C14.TieBSpectF.
+
+Theorem c14_source_spect_collate_is_model : forall bf sort F W (sq : list utt), sq <> [] ->
+  TieBSpectF.widths_ok F (map u_feat sq) -> (W <> 1 -> TieBSpectF.widths_ok W (map (oget []) (map u_ref sq))) ->
+  exists st', SrcRunB.src_spect_collate bf sort true true W sq
+              = Interp.Ok (SrcRunB.enc_sbatch true true W (spect_collate bf sort F W sq)) st'.
+Proof. exact TieBSpectF.spect_tie. Qed.
+Print Assumptions c14_source_spect_collate_is_model.
+
+(* composed with c14_collate_lossless / c14_collate_presents_all: purely about the interpreted source - un-collating
+   what it returns gives back the presented items (features, alignment, reference and id of each row together), and
+   the presented items are a permutation of the given ones: no utterance, no frame is lost or duplicated *)
+Theorem c14_source_spect_collate_lossless : forall bf sort F W (sq : list utt), sq <> [] ->
+  TieBSpectF.widths_ok F (map u_feat sq) -> (W <> 1 -> TieBSpectF.widths_ok W (map (oget []) (map u_ref sq))) ->
+  Forall wf_utt sq ->
+  exists st' b,
+    SrcRunB.src_spect_collate bf sort true true W sq = Interp.Ok (SrcRunB.enc_sbatch true true W b) st' /\
+    uncollate_spect bf b = mask_missing (presented sort sq) /\ Permutation (presented sort sq) sq.
+Proof. exact TieBSpectF.source_spect_collate_lossless. Qed.
+Print Assumptions c14_source_spect_collate_lossless.
